@@ -13,11 +13,11 @@ func init() {
 }
 
 type c19State struct {
-	c        *vlib.Ctx
-	used     map[gopacket.LayerType]gopacket.DecodingLayer // previously used objects, one per type
-	parser   *gopacket.DecodingLayerParser
-	minOK    map[gopacket.LayerType]int // shortest input on which DecodeFromBytes returned nil
-	entered  map[gopacket.LayerType]bool
+	c       *vlib.Ctx
+	used    map[gopacket.LayerType]gopacket.DecodingLayer // previously used objects, one per type
+	parser  *gopacket.DecodingLayerParser
+	minOK   map[gopacket.LayerType]int // shortest input on which DecodeFromBytes returned nil
+	entered map[gopacket.LayerType]bool
 }
 
 func (s *c19State) one(t gopacket.LayerType, in []byte, how string) {
@@ -107,7 +107,7 @@ func c19NoRecover(c *vlib.Ctx) {
 	cp := getCorpus()
 	s := &c19State{c: c, used: map[gopacket.LayerType]gopacket.DecodingLayer{}, minOK: map[gopacket.LayerType]int{}, entered: map[gopacket.LayerType]bool{}}
 	s.rebuildParser()
-	perType := c.Pick(400, 20000)
+	perType := c.Pick(6000, 60000)
 	idx := 0
 	for ti, t := range cp.Types {
 		if ti%c.NBatch != c.Batch {
